@@ -61,7 +61,10 @@ RULE_ADDED = (
               ' '
               'Round 19: an element of a valid path replaced (add_element) by one naming anothe'
               'r certifier: judged like a fresh object built from the same elements, and as bef'
-              'ore once put back. ')
+              'ore once put back. '
+              ' '
+              "Round 20 (sweep): a third of the flips in a signature's structure hit the lowest"
+              ' bit of one of its three tags. ')
 RULE = RULE + " " + RULE_ADDED.strip()
 ASSUMPTIONS = [
     "oracle: pv/oracle/certv1.py (own secp256k1 arithmetic, ECDSA by cryptography/OpenSSL); "
@@ -114,7 +117,14 @@ def flip_der_structure(hexstr, rng):
         i = rng.choice([p for p in pos if p < len(b)])
     except IndexError:
         i = 0
-    b[i] ^= 1 << rng.randrange(8)
+        rl = 0
+    bit = rng.randrange(8)
+    if rng.random() < 0.35:
+        # a third of the time: the lowest bit of one of the three tags (0x30 -> 0x31,
+        # 0x02 -> 0x03: the nearest thing that is not the tag)
+        i = rng.choice([p for p in (0, 2, 4 + rl) if p < len(b)] or [0])
+        bit = 0
+    b[i] ^= 1 << bit
     return bytes(b).hex()
 
 
